@@ -523,7 +523,10 @@ func (p *Portfolio) Prove(tb *TB, as []*Term, want []*Term, timeout time.Duratio
 	}
 	var last CheckResult
 	notes := []string{}
-	for _, to := range rounds {
+	for ri, to := range rounds {
+		if ri > 0 && !deadline.IsZero() && time.Now().After(deadline) {
+			break // out of budget: no long second round
+		}
 		for _, n := range order {
 			r := p.procs[n].Check(tb, as, want, to)
 			p.record(r)
